@@ -193,6 +193,7 @@ def roundtrip(shape: int, ki: int, v1: str, v2: str, v3: str, split: int) -> boo
     """
     pre: 0 <= shape <= 4 and 0 <= ki <= 2
     pre: len(v1) <= 3 and len(v2) <= 3 and len(v3) <= 1 and (shape != 3 or len(v2) <= 1)
+    pre: (shape in (1, 2, 3) or len(v2) == 0) and (shape == 3 or len(v3) == 0)
     pre: all(ord(c) < 256 for c in v1 + v2 + v3)
     pre: 0 <= split
     post: _
@@ -307,7 +308,10 @@ def recv_limits(n: int, hi: bool, isval: bool, fill: str, split: int) -> bool:
     k = _split_cases(5, n)
     length = k + (256 if hi else 0)
     p, r, rtr = _proto()
-    stream = ("\0\1a" if isval else "") + ("\1" if hi else "\0") + chr(k) + fill[:k] + "\0\0\0\0"
+    # the announced bytes: symbolic at value position; concrete at key position (a received key becomes a
+    # dict key, which would realise symbolic text)
+    body = fill[:k] if isval else "kxyzw"[:k]
+    stream = ("\0\1a" if isval else "") + ("\1" if hi else "\0") + chr(k) + body + "\0\0\0\0"
     sp = _split_cases(len(stream), split)
     _deliver(p, stream, sp)
     cover()
@@ -318,10 +322,10 @@ def recv_limits(n: int, hi: bool, isval: bool, fill: str, split: int) -> bool:
         return False
     got = [_items(x) for x in r.boxes]
     if isval:
-        return got == [[("a", fill[:k])], []]
+        return got == [[("a", body)], []]
     if k == 0:
         return got == [[], [], []]
-    return got == [[(fill[:k], "")]]
+    return got == [[(body, "")]]
 
 
 # ---- argument types --------------------------------------------------------------------------------
@@ -506,7 +510,7 @@ def selftest():
         assert want == got, (s, want, got)
         n += 1
     for v in (0, 1, 9, 10, 99, 100, 12345, 999999, 10 ** 9 - 1):
-        assert lbytes._fmt_int_arith(v, 10, False, 0, False) == "%d" % v
+        assert lbytes._dec_arith(v) == "%d" % v
         assert (lbytes.LBytes("%d") % (-v,)) == (b"%d" % (-v,))
         n += 2
     assert isinstance(5, _IntName) and not isinstance("5", _IntName)
